@@ -24,7 +24,7 @@ from fractions import Fraction
 import numpy as np
 from common import *
 
-IMPORTS = "From CV Require Import Base.Cmp Model.C09_Gibbs Model.C09_Gibbs2.\nFrom Coq Require Import QArith.\nLocal Open Scope Q_scope."
+IMPORTS = "From CV Require Import Base.Cmp Model.C09_Gibbs Model.C09_Gibbs2 Model.C09_Legacy2.\nFrom Coq Require Import QArith.\nLocal Open Scope Q_scope."
 RULE = ("EXACT cells on dyadic quadratic joints (2-4 blocks, dims 1-2, cycles, indefinite own terms, 0-2 data factors, names "
         "shuffled, strategy dict order != par_names, density declaration order varied): 15 HybridGibbs + 9 legacy base cells, "
         "num_sampling_steps lattice {missing,1,2,3}^2, legacy tuple-group lattice, two-parent priors, scale 2^-40..2^40, fine-move "
@@ -405,7 +405,7 @@ def run_hybrid(meta, target=None):
     if len(meta["script"]) % 2:                      # declaration order of the strategy dict is not par_names order
         strategy = {nm: strategy[nm] for nm in sorted(strategy)}
     nss = meta["num_steps"]
-    nsd = None if nss is None else {spec["names"][i]: n for i, n in enumerate(nss) if n is not None}
+    nsd = None if nss is None else {spec["names"][i]: (np.int64(n) if meta.get("nss_np") else n) for i, n in enumerate(nss) if n is not None}
     obs = {"error": None}
     sink = io.StringIO()
     try:
@@ -743,6 +743,8 @@ HY_CELLS = [
     ("hybrid/rec/3blk/warmup-twice", 3, 2, ["KRec"] * 3, [2, 1, 1], [("warmup", 2, 0.5), ("sample", 1), ("warmup", 3, 1.0), ("sample", 2)]),
     ("hybrid/rec/2blk/warmup-fractional-interval", 2, 1, ["KRec"] * 2, [1, 2], [("warmup", 3, 0.5), ("warmup", 5, 0.75), ("sample", 1)]),
     ("hybrid/pre+rec/3blk/lik/steps", 3, 1, ["KRec", "KPre", "KRec"], [1, 2, 1], [("sample", 3)]),
+    # degenerate counts: empty and one-sweep warm-ups (tune interval max(int(0.1 * Nb), 1) = 1), a block with 0 transitions
+    ("hybrid/rec+pre/3blk/warmup-0-and-1/steps-1,0,2", 3, 1, ["KRec", "KRec", "KPre"], [1, 0, 2], [("warmup", 0, 0.1), ("warmup", 1, 0.1), ("sample", 1), ("warmup", 1, 0.5)]),
     ("hybrid/pre+mh+nuts/4blk/lik2/warmup", 4, 2, ["KMH", "KPre", "KNuts", "KRec"], [1, 2, 1, 0], [("warmup", 2, 0.5), ("sample", 2)]),
     ("hybrid/mh/2blk/sample", 2, 0, ["KMH", "KMH"], None, [("sample", 4)]),
     ("hybrid/mh/3blk/lik/steps", 3, 1, ["KMH", "KMH", "KMH"], [2, 1, 3], [("sample", 3)]),
@@ -877,6 +879,7 @@ def gen_hybrid_lattice(rng, idx):
     cell = ("hybrid/steps-lattice/%s,%s" % (a, b), 2, 1, kinds, steps, [("sample", 2), ("sample", 1)])
     m = gen_hybrid(rng, cell, rep=1)
     m["spec"]["data_pos"] = [rng.randint(0, 1)]
+    m["nss_np"] = bool(idx % 3 == 1)                 # declaration style of the counts: numpy integers
     return m
 
 
@@ -1115,6 +1118,9 @@ def oracle_legacy(meta, obs):
                     bad = real_probe_check(meta, i, want, e)
                     if bad:
                         return ("sweep %d block %s (legacy %s): %s; current other values %s" % (t, spec["names"][i], meta["assign"][i], bad, [c for b, c in enumerate(want) if b != i])), "Gibbs.step|conditional-not-current"
+                    bad2 = real_draw_check(meta, i, want, e)
+                    if bad2:
+                        return ("sweep %d block %s (legacy): %s" % (t, spec["names"][i], bad2)), "Gibbs.step|draw-not-from-current-conditional"
                 for p, v in zip(meta["probes"][i], e["probes"] if not meta.get("real") else []):
                     asg = [list(x) for x in want]
                     asg[i] = p
@@ -1543,9 +1549,13 @@ def real_ls_block(meta, i):
 
 
 def real_lsspec(meta, i):
-    """Coq term (option lsspec) of block i: the Gaussian factors in the order in which the sampler stacks them"""
+    """Coq term (option lsblock) of block i: the Gaussian factors in the order in which the sampler stacks them"""
     if not real_ls_block(meta, i):
         return "None"
+    return "(Some %s)" % real_lsblock_term(meta, i)
+
+
+def real_lsblock_term(meta, i):
     names = meta["spec"]["names"]
     k = len(names)
     g = Fraction(meta["sigma"])
@@ -1557,11 +1567,11 @@ def real_lsspec(meta, i):
     if meta["model"] == "lmrf":
         Dcols = [_diffs([float(j == c) for c in range(n)]) for j in range(n)]
         pri = "(mkGF (inl %s) %s)" % (cnat(ix["d"]), clist([row(0, {ix["x"]: [Fraction(Dcols[j][r]) for j in range(n)]}) for r in range(n + 1)]))
-        return "(Some ([(%s, None); (%s, Some %s)], false))" % (lik, pri, cq(UGLA_BETA))
+        return "([(%s, None); (%s, Some %s)], false)" % (lik, pri, cq(UGLA_BETA))
     unit = lambda j: [Fraction(int(j == c)) for c in range(n)]
     pri = "(mkGF (inl %s) %s)" % (cnat(ix["d"]), clist([row(0, {ix["x"]: unit(j)}) for j in range(n)]))
     # RegularizedGaussian with the non-negativity constraint: the same rows, the solve constrained to x >= 0
-    return "(Some ([(%s, None); (%s, None)], %s))" % (lik, pri, cbool(meta["model"] == "reg"))
+    return "([(%s, None); (%s, None)], %s)" % (lik, pri, cbool(meta["model"] == "reg"))
 
 
 def real_ls_item(meta, i, ev, out):
@@ -1707,7 +1717,7 @@ def real_ls_system(meta, i, want, pt):
     return rows
 
 
-def _lsq(rows, rhs, free):
+def _lsq(rows, rhs, free, exact=False):
     """minimiser of sum_r (<a_r, x> - rhs_r)^2 over x supported on `free` (normal equations, Gauss-Jordan over Fractions)"""
     n = len(rows[0][0])
     Fr = lambda v: Fraction(*float(v).as_integer_ratio())
@@ -1716,10 +1726,27 @@ def _lsq(rows, rhs, free):
     H = [[sum(Aq[r][p] * Aq[r][q] for r in range(len(Aq))) for q in range(len(free))] for p in range(len(free))]
     gq = [sum(Aq[r][p] * cq_[r] for r in range(len(Aq))) for p in range(len(free))]
     sol = _solve(H, gq) if free else []
-    x = [0.0] * n
+    x = [Fraction(0)] * n
     for c, v in zip(free, sol):
-        x[c] = float(v)
-    return x
+        x[c] = v
+    return x if exact else [float(v) for v in x]
+
+
+def _nnls(rows, rhs):
+    """minimiser over x >= 0: the support whose restricted solution satisfies the KKT conditions (exact rational arithmetic on
+    the float data: x >= 0 and gradient >= 0 off the support)"""
+    n = len(rows[0][0])
+    Fr = lambda v: Fraction(*float(v).as_integer_ratio())
+    for mask in range(2 ** n - 1, -1, -1):
+        free = [c for c in range(n) if mask >> c & 1]
+        x = _lsq(rows, rhs, free, exact=True)
+        if any(v < 0 for v in x):
+            continue
+        res = [sum(Fr(a[q]) * x[q] for q in range(n)) - Fr(t) for (a, _), t in zip(rows, rhs)]
+        grad = [sum(Fr(rows[r][0][c]) * res[r] for r in range(len(rows))) for c in range(n)]
+        if all(grad[c] >= 0 for c in range(n) if c not in free):
+            return [float(v) for v in x]
+    return None
 
 
 def real_draw_check(meta, i, want, e):
@@ -1732,7 +1759,8 @@ def real_draw_check(meta, i, want, e):
         oshape, orate = e["gamma"][0], 1.0 / e["gamma"][1]
         shape = rate = None
         if a_i == "Conjugate" and not (meta["model"] == "reg" and names[i] == "d"):
-            f, logc = real_closed_form(meta if meta["model"] != "reg" else dict(meta, model="lmrf"), i, others)
+            # reg: the l-block's conditional is the Gaussian likelihood's, as in the hierarchical Gaussian model (A on the x-scale)
+            f, logc = real_closed_form(meta if meta["model"] != "reg" else dict(meta, model="hier"), i, others)
             rate = float(-f([Fraction(1)]))                           # f(p) = -B p
             shape = float(logc + 1)
         elif a_i == "ConjugateApprox":
@@ -1767,27 +1795,18 @@ def real_draw_check(meta, i, want, e):
                         % (a_i, pre["M"], pre["b"], expM, expb))
             if "stepsize" in pre:
                 top = float(np.linalg.norm(np.asarray(expM), 2)) ** 2
-                if not (0.9 <= pre["stepsize"] * top <= 1.5):
+                if not (0.8 <= pre["stepsize"] * top <= 3.0):       # randomised norm estimate: a wide band
                     return ("RegularizedLinearRTO holds the step size %.6g; 0.99 / |M|_2^2 of the current conditional's system is %.6g" % (pre["stepsize"], 0.99 / top))
         if len(e["e"]) != len(rows):
             return "%s consumed %d normal variates, the stacked system of the conditional has %d rows" % (a_i, len(e["e"]), len(rows))
         rhs = [b_ + z_ for (_, b_), z_ in zip(rows, e["e"])]
         if a_i == "RegularizedLinearRTO":
-            # constrained least squares over x >= 0: the support whose restricted solution satisfies the KKT conditions
-            best = None
-            for mask in range(2 ** n):
-                free = [c for c in range(n) if mask >> c & 1]
-                x = _lsq(rows, rhs, free)
-                grad = [sum(a[c] * (sum(a[q] * x[q] for q in range(n)) - t) for a, t in [(r_[0], t_) for r_, t_ in zip(rows, rhs)]) for c in range(n)]
-                top = max(abs(v) for v in x + grad + [1e-300])
-                if all(v >= -1e-9 * top for v in x) and all(grad[c] >= -1e-7 * top for c in range(n) if c not in free):
-                    best = x
-                    break
+            best = _nnls(rows, rhs)                                  # constrained least squares over x >= 0
             exp_x, tolx = best, 1e-4
         else:
             exp_x, tolx = _lsq(rows, rhs, list(range(n))), 1e-5
         if exp_x is not None:
-            sc = max(abs(v) for v in exp_x) + float(g) * 1e-3
+            sc = max(abs(v) for v in exp_x) + float(g)          # x lives on the scale g: an exact 0 comes back as round-off of that scale
             if len(e["out"]) != n or any(abs(u - v) > tolx * sc for u, v in zip(e["out"], exp_x)):
                 return ("%s with the scripted normal variates %s returned %s; the perturbed least-squares draw from the conditional given the current other "
                         "blocks (d, l = %s, %s) is %s" % (a_i, e["e"], e["out"], float(others["d"][0]), float(others["l"][0]), exp_x))
@@ -1813,9 +1832,9 @@ def cgjoint(meta):
     ix = {n: i for i, n in enumerate(names)}
     row = lambda c, cos: "(mkRow %s %s)" % (cq(c), clist([cqvec(cos.get(b, [])) for b in range(k)]))
     if meta["model"] in ("lmrf", "reg"):
-        A = [[Fraction(a) for a in r] for r in meta["A"]]
+        A = [[Fraction(a) / g for a in r] for r in meta["A"]]
         f2 = "(mkGF (inl %s) %s)" % (cnat(ix["l"]), clist([row(meta["y"][r], {ix["x"]: A[r]}) for r in range(len(A))]))
-        lins = clist(["(%s, %s)" % (cnat(ix["d"]), cq(Fraction(meta["bd"]))), "(%s, %s)" % (cnat(ix["l"]), cq(meta["bl"]))])
+        lins = clist(["(%s, %s)" % (cnat(ix["d"]), cq(Fraction(meta["bd"]) * g * g)), "(%s, %s)" % (cnat(ix["l"]), cq(meta["bl"]))])
         return "(gjoint %s %s)" % (clist([f2]), lins)          # the prior of x is not polynomial: only the l-block is compared in Coq
     if meta["model"] == "hier":
         A = [[Fraction(a) / g for a in r] for r in meta["A"]]
@@ -1879,11 +1898,14 @@ REAL_CELLS = [
     # a block configured with 0 transitions per sweep stays fixed (l), a least-squares block with 2: both draws from the same conditional
     ("real/hier/LinearRTO+Conjugate/steps-1,0,2", "hier", ["d", "l", "x"], ["Conjugate", "Conjugate", "LinearRTO"], [1, 0, 2], [("sample", 3)], 0),
     ("real/lmrf/UGLA+ConjugateApprox+Conjugate/steps-2,0,None", "lmrf", ["x", "d", "l"], ["UGLA", "ConjugateApprox", "Conjugate"], [2, 0, None], [("sample", 3)], 0),
+    # the least-squares block itself kept fixed (0 transitions): d and l are drawn given the initial x in every sweep; repeated / empty sample calls
+    ("real/hier/LinearRTO+Conjugate/steps-0,1,2/sample-thrice", "hier", ["x", "d", "l"], ["LinearRTO", "Conjugate", "Conjugate"], [0, 1, 2], [("sample", 1), ("sample", 0), ("sample", 2)], 0),
     ("real/hier/NUTS+Conjugate", "hier", ["d", "l", "x"], ["Conjugate", "Conjugate", "NUTS"], None, [("warmup", 2, 0.5), ("sample", 2)], 0),
     ("real/hier/MALA+MH+Conjugate", "hier", ["x", "d", "l"], ["MALA", "MH", "Conjugate"], [2, 1, 1], [("sample", 3)], 0),
     ("real/lmrf/UGLA+ConjugateApprox+Conjugate", "lmrf", ["d", "l", "x"], ["ConjugateApprox", "Conjugate", "UGLA"], None, [("sample", 3)], 0),
     ("real/lmrf/UGLA+ConjugateApprox+Conjugate/steps+warmup", "lmrf", ["x", "l", "d"], ["UGLA", "Conjugate", "ConjugateApprox"], [2, 1, 1], [("warmup", 2, 0.5), ("sample", 2)], 0),
     ("real/reg/RegularizedLinearRTO+Conjugate", "reg", ["x", "d", "l"], ["RegularizedLinearRTO", "Conjugate", "Conjugate"], None, [("sample", 3)], 0),
+    ("real/reg/RegularizedLinearRTO+Conjugate/x-scale2^-20/steps+warmup", "reg", ["d", "x", "l"], ["Conjugate", "RegularizedLinearRTO", "Conjugate"], [1, 2, 1], [("warmup", 2, 0.5), ("sample", 2)], -20),
     ("real/pair/MALA+MH", "pair", ["x", "s"], ["MALA", "MH"], None, [("sample", 4)], 0),
     ("real/pair/ULA+MH/scale2^-30", "pair", ["x", "s"], ["ULA", "MH"], None, [("sample", 4)], -30),
     ("real/pair/CWMH+MH/warmup", "pair", ["s", "x"], ["MH", "CWMH"], [1, 2], [("warmup", 2, 0.5), ("sample", 2)], 0),
@@ -1992,14 +2014,54 @@ def run_legacy_real(meta):
                     kw["scale"] = meta["sscale"][self.blk]
                 if which == "NUTS":
                     kw["max_depth"], kw["adapt_step_size"] = 3, 0.25 * float(meta["sigma"])      # fixed step: usable without burn-in
+                if which == "LinearRTO":
+                    kw["maxit"], kw["tol"] = len(meta["A"][0]) + 3, 1e-10                           # as for the experimental LinearRTO
                 self.inner = base(tgt, **kw)
 
             def step(self, x):
                 tr.on_lstep(self.blk, self.target, x)
-                out = self.inner.step(x)
+                ev = tr.events[-1]
+                # what the draw is made from: the system a LinearRTO object precomputed when it was built, scripted normals,
+                # the Gamma parameters a Conjugate object hands to numpy (scripted standard variate)
+                orig_g, orig_n = np.random.gamma, np.random.randn
+                cap, used = {}, []
+                if which == "LinearRTO":
+                    Mx = self.inner.M
+                    if callable(Mx) and not hasattr(Mx, "toarray"):
+                        Md = np.array([np.ravel(Mx(u, 1)) for u in np.eye(len(np.ravel(x)))], dtype=float).T.tolist()
+                    else:
+                        Md = (Mx.toarray() if hasattr(Mx, "toarray") else np.asarray(Mx, dtype=float)).tolist()
+                    ev["pre"] = {"M": Md, "b": [float(a) for a in np.ravel(self.inner.b_tild)]}
+
+                    def randn(*shape):
+                        nn = int(np.prod(shape)) if shape else 1
+                        vals = [0.0] * nn if meta.get("zero_noise") else [(es_of[self.blk].pop(0) if es_of[self.blk] else 0.0) for _ in range(nn)]
+                        used.extend(vals)
+                        return np.asarray(vals, dtype=float).reshape(shape) if shape else vals[0]
+                    np.random.randn = randn
+                if which == "Conjugate":
+                    def gam(*a, **k):
+                        cap["shape"], cap["scale"] = float(np.ravel(k.get("shape", a[0] if a else np.nan))[0]), float(np.ravel(k.get("scale", a[1] if len(a) > 1 else 1.0))[0])
+                        z = zs_of[self.blk].pop(0) if zs_of[self.blk] else 1.0
+                        cap["z"] = z
+                        size = k.get("size", a[2] if len(a) > 2 else None)
+                        return np.ones(size if size is not None else ()) * z * np.asarray(k.get("scale", a[1] if len(a) > 1 else 1.0), dtype=float)
+                    np.random.gamma = gam
+                try:
+                    out = self.inner.step(x)
+                finally:
+                    np.random.gamma, np.random.randn = orig_g, orig_n
+                if cap:
+                    ev["gamma"] = [cap["shape"], cap["scale"]]
+                    ev["z"] = cap["z"]
+                if which == "LinearRTO":
+                    ev["e"] = used
+                    ev["out"] = [float(a) for a in np.asarray(out).ravel()]
                 tr.results[self.blk].append([float(a) for a in np.asarray(out).ravel()])
                 return out
         return LW
+    es_of = [list(v) for v in meta.get("ens", [[]] * k)]
+    zs_of = [list(v) for v in meta.get("zs", [[]] * k)]
     try:
         with contextlib.redirect_stdout(io.StringIO()):
             target = real_model(meta)
@@ -2047,6 +2109,28 @@ def legacy_real_script(meta, obs):
     return [[[{"vec": get(i, t), "u": None, "acc": 1}] for i in range(k)] for t in range(nsw)]
 
 
+def legacy_modelled(meta):
+    """legacy cells whose LinearRTO / Conjugate draws the MODEL computes (Model/C09_Legacy2.v)"""
+    return meta["model"] == "hier" and all(a in ("LinearRTO", "Conjugate") for a in meta["assign"])
+
+
+def legacy_real_script2(meta, obs):
+    """items for the modelled legacy draws: LinearRTO: observed point ++ normals ++ certificates; Conjugate: the standard variate"""
+    k = len(meta["spec"]["names"])
+    sc = legacy_real_script(meta, obs)
+    evs_of = [[e for e in obs.get("events", []) if e["blk"] == i] for i in range(k)]
+    for t, sw in enumerate(sc):
+        for i in range(k):
+            it = sw[i][0]
+            if t < len(evs_of[i]):
+                e = evs_of[i][t]
+                if meta["assign"][i] == "LinearRTO":
+                    it["vec"] = real_ls_item(meta, i, e, it["vec"])
+                else:
+                    it["z"] = e.get("z", 1.0)
+    return sc
+
+
 def encode_legacy_real(meta, obs):
     if obs.get("error"):
         return "false"
@@ -2058,6 +2142,13 @@ def encode_legacy_real(meta, obs):
         else:
             oobs.append("(LObs %s %s)" % (clist([cvecs(st) for st in c["samples"]]), clist([cvecs(st) for st in c["warm"]])))
     combos = clist([clist([czvec(c) for c in meta["combos"][i]]) for i in range(k)])
+    if legacy_modelled(meta):
+        ks = clist([("(L2Ls %s)" % real_lsblock_term(meta, i)) if meta["assign"][i] == "LinearRTO" else "L2Conj" for i in range(k)])
+        return "check_legacy_tol2 %s %s %s %s %s %s %s %s %s %s %s %s" % (
+            cq(Fraction(1, 10 ** 12)), cgjoint(meta), ks, clist([cq(real_model_scale(dict(meta, opaque=list(range(k))), i)) for i in range(k)]),
+            cvecs(meta["inits"]), cscript(legacy_real_script2(meta, obs)),
+            clist(["(LSample %s %s)" % (cnat(a), cnat(b)) for a, b in meta["ops"]]), clist([cvecs(p) for p in meta["probes"]]), combos,
+            cq(TOL_REAL), clist(oobs), clist([coev(dict(e, cache=None)) for e in obs["events"]]))
     return "check_legacy_tol %s %s %s %s %s %s %s %s %s" % (
         cgjoint(meta), cvecs(meta["inits"]), cscript(legacy_real_script(meta, obs)),
         clist(["(LSample %s %s)" % (cnat(a), cnat(b)) for a, b in meta["ops"]]), clist([cvecs(p) for p in meta["probes"]]), combos,
